@@ -290,9 +290,9 @@ theorem Test.finishSt_of_not_xskip (cap : Nat) (su td : Bool) (t : Test) (hx : t
 /-- One forked test, started on an empty channel: the channel is empty again afterwards, the test's
 own counts (and nothing else) are added to the suite's counters, and its result lines are a function
 of the test alone. -/
-theorem runTest_fork (cap : Nat) (hcap : 0 < cap) (m : Mode) (su td : Bool) (path : List String) (s : St) (t : Test)
+theorem runTest_fork (cap : Nat) (hcap : 0 < cap) (m : Mode) (r : Reporter) (su td : Bool) (path : List String) (s : St) (t : Test)
     (hp : s.pipe = []) (hh : s.halted = none) (hok : t.ok cap m su td) :
-    ∃ o n, runTest ⟨cap, m⟩ su td path s t
+    ∃ o n, runTest ⟨cap, m, r⟩ su td path s t
             = { s with cur := s.cur + t.truth cap su td, nproc := s.nproc + n, out := s.out ++ o }
           ∧ o.filter Out.isResult = t.results cap su td (path ++ [t.name]) := by
   by_cases hx : t.xskip = true
@@ -344,11 +344,11 @@ structure Steps (s r : St) (c dt : Cnt) (o : List Out) (n : Nat) : Prop where
   nproc : r.nproc = s.nproc + n
   out : r.out = s.out ++ o
 
-theorem runTest_fork' (cap : Nat) (hcap : 0 < cap) (m : Mode) (su td : Bool) (path : List String) (s : St) (t : Test)
+theorem runTest_fork' (cap : Nat) (hcap : 0 < cap) (m : Mode) (r : Reporter) (su td : Bool) (path : List String) (s : St) (t : Test)
     (hp : s.pipe = []) (hh : s.halted = none) (hok : t.ok cap m su td) :
-    ∃ o n, Steps s (runTest ⟨cap, m⟩ su td path s t) (s.cur + t.truth cap su td) 0 o n
+    ∃ o n, Steps s (runTest ⟨cap, m, r⟩ su td path s t) (s.cur + t.truth cap su td) 0 o n
           ∧ o.filter Out.isResult = t.results cap su td (path ++ [t.name]) := by
-  obtain ⟨o, n, h, hr⟩ := runTest_fork cap hcap m su td path s t hp hh hok
+  obtain ⟨o, n, h, hr⟩ := runTest_fork cap hcap m r su td path s t hp hh hok
   refine ⟨o, n, ?_, hr⟩
   rw [h]
   constructor <;> simp [hp, hh]
@@ -358,15 +358,15 @@ def resultsTests (cap : Nat) (su td : Bool) (path : List String) : List Test →
   | [] => []
   | t :: ts => t.results cap su td (path ++ [t.name]) ++ resultsTests cap su td path ts
 
-theorem runTests_fork (cap : Nat) (hcap : 0 < cap) (m : Mode) (su td : Bool) (path : List String) (ts : List Test) (s : St)
+theorem runTests_fork (cap : Nat) (hcap : 0 < cap) (m : Mode) (r : Reporter) (su td : Bool) (path : List String) (ts : List Test) (s : St)
     (hp : s.pipe = []) (hh : s.halted = none) (hok : ∀ t ∈ ts, t.ok cap m su td) :
-    ∃ o n, Steps s (runTests ⟨cap, m⟩ su td path s ts) (s.cur + truthTests cap su td ts) 0 o n
+    ∃ o n, Steps s (runTests ⟨cap, m, r⟩ su td path s ts) (s.cur + truthTests cap su td ts) 0 o n
           ∧ o.filter Out.isResult = resultsTests cap su td path ts := by
   induction ts generalizing s with
   | nil => exact ⟨[], 0, by constructor <;> simp [runTests, truthTests, hp, hh], by simp [resultsTests]⟩
   | cons t ts ih =>
-    obtain ⟨o1, n1, h1, hr1⟩ := runTest_fork' cap hcap m su td path s t hp hh (hok t List.mem_cons_self)
-    obtain ⟨o2, n2, h2, hr2⟩ := ih (runTest ⟨cap, m⟩ su td path s t) h1.pipe h1.halted
+    obtain ⟨o1, n1, h1, hr1⟩ := runTest_fork' cap hcap m r su td path s t hp hh (hok t List.mem_cons_self)
+    obtain ⟨o2, n2, h2, hr2⟩ := ih (runTest ⟨cap, m, r⟩ su td path s t) h1.pipe h1.halted
       (fun t' ht' => hok t' (List.mem_cons_of_mem _ ht'))
     refine ⟨o1 ++ o2, n1 + n2, ?_, ?_⟩
     · simp only [runTests]
@@ -381,9 +381,9 @@ theorem runTests_fork (cap : Nat) (hcap : 0 < cap) (m : Mode) (su td : Bool) (pa
 
 /-! ### Suites -/
 
-theorem finishSuite_empty (cap : Nat) (hcap : 0 < cap) (mode : Mode) (s : St) (path : List String)
+theorem finishSuite_empty (cap : Nat) (hcap : 0 < cap) (mode : Mode) (r : Reporter) (s : St) (path : List String)
     (hp : s.pipe = []) (hh : s.halted = none) :
-    Steps s (finishSuite ⟨cap, mode⟩ s path) s.cur s.cur [Out.suiteEnd path s.cur] 0 := by
+    Steps s (finishSuite ⟨cap, mode, r⟩ s path) s.cur s.cur [Out.suiteEnd path s.cur] 0 := by
   have hlt : (0 : Nat) < cap := hcap
   have hs := send_fresh cap [] .completion (by simpa using hlt)
   simp only [finishSuite, hh, Option.isSome_none, Bool.false_eq_true, if_false, hp, hs.1, hs.2,
@@ -412,23 +412,23 @@ def resultsSubs (cap : Nat) (path : List String) : List Tree → List Out
 end
 
 mutual
-theorem runSuite_fork (cap : Nat) (hcap : 0 < cap) (m : Mode) :
+theorem runSuite_fork (cap : Nat) (hcap : 0 < cap) (m : Mode) (r : Reporter) :
     ∀ (t : Tree) (parent : List String) (s : St), s.pipe = [] → s.halted = none → t.AllOk cap m →
-    ∃ c o n, Steps s (runSuite ⟨cap, m⟩ parent s t) c (t.truth cap) o n
+    ∃ c o n, Steps s (runSuite ⟨cap, m, r⟩ parent s t) c (t.truth cap) o n
             ∧ o.filter Out.isResult = t.results cap parent
   | .node name su td subs tests, parent, s, hp, hh, hok => by
     have hi : s.halted.isSome = false := by simp [hh]
     have hok' : allOkSubs cap m subs ∧ ∀ t ∈ tests, t.ok cap m su td := by simpa [Tree.AllOk] using hok
-    obtain ⟨c1, o1, n1, h1, hr1⟩ := runSubs_fork cap hcap m subs (parent ++ [name]) su td
+    obtain ⟨c1, o1, n1, h1, hr1⟩ := runSubs_fork cap hcap m r subs (parent ++ [name]) su td
       { s with cur := 0, out := s.out ++ [Out.suiteStart (parent ++ [name])] } hp hh hok'.1
-    generalize hr1def : runSubs ⟨cap, m⟩ (parent ++ [name]) su td
+    generalize hr1def : runSubs ⟨cap, m, r⟩ (parent ++ [name]) su td
       { s with cur := 0, out := s.out ++ [Out.suiteStart (parent ++ [name])] } subs = r1 at h1
-    obtain ⟨o2, n2, h2, hr2⟩ := runTests_fork cap hcap m su td (parent ++ [name]) tests
+    obtain ⟨o2, n2, h2, hr2⟩ := runTests_fork cap hcap m r su td (parent ++ [name]) tests
       { r1 with cur := 0 } h1.pipe h1.halted hok'.2
-    generalize hr2def : runTests ⟨cap, m⟩ su td (parent ++ [name]) { r1 with cur := 0 } tests = r2 at h2
-    have h3 := finishSuite_empty cap hcap m r2 (parent ++ [name]) h2.pipe h2.halted
-    have hrun : runSuite ⟨cap, m⟩ parent s (.node name su td subs tests)
-        = finishSuite ⟨cap, m⟩ r2 (parent ++ [name]) := by
+    generalize hr2def : runTests ⟨cap, m, r⟩ su td (parent ++ [name]) { r1 with cur := 0 } tests = r2 at h2
+    have h3 := finishSuite_empty cap hcap m r r2 (parent ++ [name]) h2.pipe h2.halted
+    have hrun : runSuite ⟨cap, m, r⟩ parent s (.node name su td subs tests)
+        = finishSuite ⟨cap, m, r⟩ r2 (parent ++ [name]) := by
       simp only [runSuite, hi, Bool.false_eq_true, if_false, hr1def, hr2def]
     rw [hrun]
     refine ⟨r2.cur, [Out.suiteStart (parent ++ [name])] ++ o1 ++ o2
@@ -442,23 +442,23 @@ theorem runSuite_fork (cap : Nat) (hcap : 0 < cap) (m : Mode) :
       · rw [h3.nproc, h2.nproc]; simp only [h1.nproc]; omega
       · rw [h3.out, h2.out, hc2]; simp only [h1.out]; simp [List.append_assoc]
     · simp [List.filter_append, hr1, hr2, Tree.results, Out.isResult, List.filter_cons]
-theorem runSubs_fork (cap : Nat) (hcap : 0 < cap) (m : Mode) :
+theorem runSubs_fork (cap : Nat) (hcap : 0 < cap) (m : Mode) (r : Reporter) :
     ∀ (cs : List Tree) (path : List String) (su td : Bool) (s : St), s.pipe = [] → s.halted = none → allOkSubs cap m cs →
-    ∃ c o n, Steps s (runSubs ⟨cap, m⟩ path su td s cs) c (truthSubs cap cs) o n
+    ∃ c o n, Steps s (runSubs ⟨cap, m, r⟩ path su td s cs) c (truthSubs cap cs) o n
             ∧ o.filter Out.isResult = resultsSubs cap path cs
   | [], path, su, td, s, hp, hh, _ =>
     ⟨s.cur, [], 0, by constructor <;> simp [runSubs, truthSubs, hp, hh], by simp [resultsSubs]⟩
   | c :: cs, path, su, td, s, hp, hh, hok => by
     have hok' : c.AllOk cap m ∧ allOkSubs cap m cs := by simpa [allOkSubs] using hok
     have hi : s.halted.isSome = false := by simp [hh]
-    obtain ⟨c1, o1, n1, h1, hr1⟩ := runSuite_fork cap hcap m c path
+    obtain ⟨c1, o1, n1, h1, hr1⟩ := runSuite_fork cap hcap m r c path
       { s with out := s.out ++ (if su then [Out.ev 0 path .suiteSetup] else []) } hp hh hok'.1
-    generalize hr1def : runSuite ⟨cap, m⟩ path
+    generalize hr1def : runSuite ⟨cap, m, r⟩ path
       { s with out := s.out ++ (if su then [Out.ev 0 path .suiteSetup] else []) } c = r1 at h1
-    obtain ⟨c2, o2, n2, h2, hr2⟩ := runSubs_fork cap hcap m cs path su td
+    obtain ⟨c2, o2, n2, h2, hr2⟩ := runSubs_fork cap hcap m r cs path su td
       { r1 with out := r1.out ++ (if td then [Out.ev 0 path .suiteTeardown] else []) } h1.pipe h1.halted hok'.2
-    have hrun : runSubs ⟨cap, m⟩ path su td s (c :: cs)
-        = runSubs ⟨cap, m⟩ path su td
+    have hrun : runSubs ⟨cap, m, r⟩ path su td s (c :: cs)
+        = runSubs ⟨cap, m, r⟩ path su td
             { r1 with out := r1.out ++ (if td then [Out.ev 0 path .suiteTeardown] else []) } cs := by
       have hi1 : r1.halted.isSome = false := by simp [h1.halted]
       simp only [runSubs, hi, Bool.false_eq_true, if_false, hr1def, hi1]
@@ -477,11 +477,11 @@ end
 
 /-! ### The whole run -/
 
-theorem run_spec (cap : Nat) (hcap : 0 < cap) (m : Mode) (t : Tree) (hok : t.AllOk cap m) :
-    (run ⟨cap, m⟩ t).halted = none ∧ (run ⟨cap, m⟩ t).pipe = [] ∧ (run ⟨cap, m⟩ t).tot = t.truth cap
-    ∧ (run ⟨cap, m⟩ t).out.filter Out.isResult = t.results cap [] ++ [Out.totals (t.truth cap)] := by
-  obtain ⟨c, o, n, h, hr⟩ := runSuite_fork cap hcap m t [] {} rfl rfl hok
-  have hi : (runSuite ⟨cap, m⟩ [] {} t).halted.isSome = false := by simp [h.halted]
+theorem run_spec (cap : Nat) (hcap : 0 < cap) (m : Mode) (r : Reporter) (t : Tree) (hok : t.AllOk cap m) :
+    (run ⟨cap, m, r⟩ t).halted = none ∧ (run ⟨cap, m, r⟩ t).pipe = [] ∧ (run ⟨cap, m, r⟩ t).tot = t.truth cap
+    ∧ (run ⟨cap, m, r⟩ t).out.filter Out.isResult = t.results cap [] ++ [Out.totals (t.truth cap)] := by
+  obtain ⟨c, o, n, h, hr⟩ := runSuite_fork cap hcap m r t [] {} rfl rfl hok
+  have hi : (runSuite ⟨cap, m, r⟩ [] {} t).halted.isSome = false := by simp [h.halted]
   simp only [run, hi, Bool.false_eq_true, if_false]
   refine ⟨h.halted, h.pipe, ?_, ?_⟩
   · rw [h.tot]; simp
